@@ -66,3 +66,8 @@ package volatility
 //@ ensures[C03] consumed(c) == len(c)
 //@ use nlast_hold(res(SuperTrendStrategy_Compute), len(res(SuperTrendStrategy_Compute)) - len(arg(ActionsToAnnotations, 0, 0)), len(res(SuperTrendStrategy_Compute)) - len(arg(ActionsToAnnotations, 0, 0)))
 //@ use nlast_skip(res(SuperTrendStrategy_Compute), arg(ActionsToAnnotations, 0, 0), len(res(SuperTrendStrategy_Compute)) - len(arg(ActionsToAnnotations, 0, 0)))
+
+// ---- generated by /verif/tools/gentypeinv.py: admissible configurations and warm-up of the strategy types ----
+//@ typeinv BollingerBandsStrategy :: b.BollingerBands.Period >= 1 && warmup(self) == (b.BollingerBands.IdlePeriod())
+//@ typeinv SuperTrendStrategy :: warmup(self) == (s.SuperTrend.IdlePeriod())
+// ---- end generated typeinv ----
